@@ -193,6 +193,21 @@ PROPS = {
         note="Trusted: Lean kernel, axioms propext/Classical.choice/Quot.sound; harness (tape allocator), hooks, protocol. "
              "Zero-sized element layouts are exercised by the table profile (C06) rather than here.",
     ),
+    "C13": dict(
+        module="Hb.Props.C13",
+        ties=[("scen", "churn-long", 12, 600), ("scen", "churn", 250, 8000), ("scen", "saturate", 100, 3000), ("t1", {})],
+        backends=["sse2", "portable"],
+        design="§7 C13",
+        text="Lean theorems for every environment and every insert/get/get_mut/remove/remove_entry history of unbounded length "
+             "from new(): capacity <= max(14, 4*peak len), bucket count <= 4x with_capacity(n), bytes <= 4x that layout; "
+             "tombstones are reclaimed in place (same bucket count, no allocator event) when at most half the capacity is live; "
+             "every look-up terminates without fault in any state satisfying the invariant. Tie: long churn histories (4000 "
+             "ops) and saturate histories under all hash plans with the bucket count in every dump compared with the model "
+             "(a flipped in-place/grow decision shows at its first occurrence) + direct oracle of the bound on the real map "
+             "after every call; reserve_rehash decision regenerated from source (T1).",
+        note="Trusted: Lean kernel, axioms propext/Classical.choice/Quot.sound; harness, hooks, protocol. Termination on the real "
+             "code is observed only as completion of the runs (no timing-based verdicts).",
+    ),
     "C09": dict(
         module="Hb.Props.C09",
         ties=[("scen", "iter", 300, 10000), ("scen", "mixed", 200, 6000), ("scen", "saturate", 40, 2000)],
